@@ -723,9 +723,9 @@ Proof.
   rewrite (Nat.eqb_sym x a). destruct (Nat.eqb a x); [reflexivity|]. reflexivity.
 Qed.
 
-Lemma clear_mirror s path : wf_st s -> Mirror s -> Mirror (fst (Store.step s (OClear path))).
+Lemma clear_mirror s path : wf_st s -> Mirror s -> Mirror (fst (Store.step0 s (OClear path))).
 Proof.
-  intros Hwf HM. cbn [Store.step].
+  intros Hwf HM. cbn [Store.step0].
   destruct (Nat.ltb (length path) (nranks s)); [|exact HM].
   destruct (fiber_at path (root_es s)) as [eF|] eqn:HF; [|exact HM].
   unfold local. destruct (path_ok path (root_es s)); [|exact HM].
@@ -1053,9 +1053,9 @@ Proof.
   eapply mirror_with_root; [exact Hr|exact HM|]. eapply at_path_st_delta; eassumption.
 Qed.
 
-Theorem step_mirror s o : wf_st s -> Mirror s -> Mirror (fst (Store.step s o)).
+Lemma step0_mirror s o : wf_st s -> Mirror s -> Mirror (fst (Store.step0 s o)).
 Proof.
-  intros Hs HM. destruct o; cbn [Store.step].
+  intros Hs HM. destruct o; cbn [Store.step0].
   - (* OGetRef *)
     destruct (Nat.leb (length pt) (nranks s) && negb (Nat.eqb (length pt) 0)); [|exact HM].
     destruct (get_ref (nranks s) (s_d s) w 0 pt (root_es s) (s_next s) (s_ranks s))
@@ -1165,6 +1165,21 @@ Proof.
       [|exact HM].
     cbn [fst]. refine (spec_mirror s path _ es' nx rk Hs HM _ Hat).
     intros e0 nx0 rk0 e1 nx1 rk1 H. eapply assign_fib_spec. exact H.
+  - (* OSetItemCF: not a step0 operation *)
+    exact HM.
+Qed.
+
+(* OSetItemCF = the coordinate-only assignment, then the fiber-only assignment (step_decomp) *)
+Theorem step_mirror s o : wf_st s -> Mirror s -> Mirror (fst (Store.step s o)).
+Proof.
+  intros Hs HM.
+  destruct (step_decomp s o) as [E|(path & pos & c & t & _ & [[E _]|(s1 & r1 & _ & E1 & E2)])].
+  - rewrite E. apply step0_mirror; assumption.
+  - rewrite E. exact HM.
+  - pose proof (step0_wf s (OSetItem path pos (Some c) None) Hs) as Hs1.
+    pose proof (step0_mirror s (OSetItem path pos (Some c) None) Hs HM) as HM1.
+    rewrite E1 in Hs1, HM1. cbn [fst] in Hs1, HM1.
+    rewrite E2. apply step0_mirror; assumption.
 Qed.
 
 Theorem run_mirror : forall ops s, wf_st s -> Mirror s -> wf_st (run s ops) /\ Mirror (run s ops).
